@@ -79,10 +79,11 @@ func outFor(r *hx.Rand, need int) (out []byte, spare int) {
 	}
 }
 
-func gen(g *hx.Gen) {
+// genLine produces one op line of the given kind (0..15, see the switch).
+func genLine(g *hx.Gen, kind int) string {
 	r := g.R
-	n := g.Count(3000, 50000)
-	for i := 0; i < n; i++ {
+	var line string
+	{
 		L := msgLen(r, g)
 		msg := r.Bytes(L)
 		if r.Chance(1, 10) {
@@ -91,10 +92,10 @@ func gen(g *hx.Gen) {
 			}
 		}
 		nonce := r.Bytes(24)
-		switch r.Intn(16) {
+		switch kind {
 		case 0, 1, 2:
 			out, spare := outFor(r, L+16)
-			g.Emit("sbseal key=%s nonce=%s msg=%s out=%s cap=%d", hx.Hex(r.Bytes(32)), hx.Hex(nonce), hx.Hex(msg), hx.Hex(out), spare)
+			line = fmt.Sprintf("sbseal key=%s nonce=%s msg=%s out=%s cap=%d", hx.Hex(r.Bytes(32)), hx.Hex(nonce), hx.Hex(msg), hx.Hex(out), spare)
 			g.Stat("secretbox.seal")
 		case 3, 4:
 			var key [32]byte
@@ -109,7 +110,7 @@ func gen(g *hx.Gen) {
 				g.Stat("secretbox.open-valid")
 			}
 			out, spare := outFor(r, L)
-			g.Emit("sbopen key=%s nonce=%s box=%s out=%s cap=%d", hx.Hex(key[:]), hx.Hex(nonce), hx.Hex(bx), hx.Hex(out), spare)
+			line = fmt.Sprintf("sbopen key=%s nonce=%s box=%s out=%s cap=%d", hx.Hex(key[:]), hx.Hex(nonce), hx.Hex(bx), hx.Hex(out), spare)
 		case 5:
 			apriv, bpriv := r.Bytes(32), r.Bytes(32)
 			apub, bpub := pubOf(apriv), pubOf(bpriv)
@@ -117,7 +118,7 @@ func gen(g *hx.Gen) {
 				bpub = hx.UnHex(hx.Pick(r, lowOrder))
 				g.Stat("precompute.low-order-peer")
 			}
-			g.Emit("precomp apriv=%s apub=%s bpriv=%s bpub=%s oracle.dh1=%s oracle.dh2=%s", hx.Hex(apriv), hx.Hex(apub), hx.Hex(bpriv), hx.Hex(bpub), dh(apriv, bpub), dh(bpriv, apub))
+			line = fmt.Sprintf("precomp apriv=%s apub=%s bpriv=%s bpub=%s oracle.dh1=%s oracle.dh2=%s", hx.Hex(apriv), hx.Hex(apub), hx.Hex(bpriv), hx.Hex(bpub), dh(apriv, bpub), dh(bpriv, apub))
 			g.Stat("precompute")
 		case 6, 7, 8:
 			priv := r.Bytes(32)
@@ -127,7 +128,7 @@ func gen(g *hx.Gen) {
 				g.Stat("box.low-order-peer")
 			}
 			out, spare := outFor(r, L+16)
-			g.Emit("bxseal pre=%d pub=%s priv=%s oracle.dh=%s nonce=%s msg=%s out=%s cap=%d", r.Intn(2), hx.Hex(pub), hx.Hex(priv), dh(priv, pub), hx.Hex(nonce), hx.Hex(msg), hx.Hex(out), spare)
+			line = fmt.Sprintf("bxseal pre=%d pub=%s priv=%s oracle.dh=%s nonce=%s msg=%s out=%s cap=%d", r.Intn(2), hx.Hex(pub), hx.Hex(priv), dh(priv, pub), hx.Hex(nonce), hx.Hex(msg), hx.Hex(out), spare)
 			g.Stat("box.seal")
 		case 9:
 			apriv, bpriv := r.Bytes(32), r.Bytes(32)
@@ -139,7 +140,7 @@ func gen(g *hx.Gen) {
 			bx := box.Seal(nil, msg, &nn, &bp, &ap)
 			out, spare := outFor(r, L)
 			apub := pubOf(apriv)
-			g.Emit("bxopen pre=%d pub=%s priv=%s oracle.dh=%s nonce=%s box=%s out=%s cap=%d", r.Intn(2), hx.Hex(apub), hx.Hex(bpriv), dh(bpriv, apub), hx.Hex(nonce), hx.Hex(bx), hx.Hex(out), spare)
+			line = fmt.Sprintf("bxopen pre=%d pub=%s priv=%s oracle.dh=%s nonce=%s box=%s out=%s cap=%d", r.Intn(2), hx.Hex(apub), hx.Hex(bpriv), dh(bpriv, apub), hx.Hex(nonce), hx.Hex(bx), hx.Hex(out), spare)
 			g.Stat("box.open")
 		case 10:
 			esk := r.Bytes(32)
@@ -148,7 +149,7 @@ func gen(g *hx.Gen) {
 				rc = hx.UnHex(hx.Pick(r, lowOrder))
 			}
 			out, spare := outFor(r, L+48)
-			g.Emit("anseal recipient=%s esk=%s oracle.epk=%s oracle.dh=%s msg=%s out=%s cap=%d", hx.Hex(rc), hx.Hex(esk), hx.Hex(pubOf(esk)), dh(esk, rc), hx.Hex(msg), hx.Hex(out), spare)
+			line = fmt.Sprintf("anseal recipient=%s esk=%s oracle.epk=%s oracle.dh=%s msg=%s out=%s cap=%d", hx.Hex(rc), hx.Hex(esk), hx.Hex(pubOf(esk)), dh(esk, rc), hx.Hex(msg), hx.Hex(out), spare)
 			g.Stat("sealed.seal")
 		case 11:
 			priv := r.Bytes(32)
@@ -172,11 +173,11 @@ func gen(g *hx.Gen) {
 			epk := make([]byte, 32)
 			copy(epk, bx)
 			out, spare := outFor(r, L)
-			g.Emit("anopen pub=%s priv=%s oracle.dh=%s box=%s out=%s cap=%d", hx.Hex(pub), hx.Hex(priv), dh(priv, epk), hx.Hex(bx), hx.Hex(out), spare)
+			line = fmt.Sprintf("anopen pub=%s priv=%s oracle.dh=%s box=%s out=%s cap=%d", hx.Hex(pub), hx.Hex(priv), dh(priv, epk), hx.Hex(bx), hx.Hex(out), spare)
 		case 12:
 			_, priv, _ := ed25519.GenerateKey(r)
 			out, spare := outFor(r, L+64)
-			g.Emit("sign priv=%s oracle.sig=%s msg=%s out=%s cap=%d", hx.Hex(priv), hx.Hex(ed25519.Sign(priv, msg)), hx.Hex(msg), hx.Hex(out), spare)
+			line = fmt.Sprintf("sign priv=%s oracle.sig=%s msg=%s out=%s cap=%d", hx.Hex(priv), hx.Hex(ed25519.Sign(priv, msg)), hx.Hex(msg), hx.Hex(out), spare)
 			g.Stat("sign.sign")
 		case 13:
 			pub, priv, _ := ed25519.GenerateKey(r)
@@ -196,9 +197,9 @@ func gen(g *hx.Gen) {
 				valid = 1
 			}
 			out, spare := outFor(r, L)
-			g.Emit("sopen pub=%s signed=%s oracle.valid=%d out=%s cap=%d", hx.Hex(pub), hx.Hex(sm), valid, hx.Hex(out), spare)
+			line = fmt.Sprintf("sopen pub=%s signed=%s oracle.valid=%d out=%s cap=%d", hx.Hex(pub), hx.Hex(sm), valid, hx.Hex(out), spare)
 		case 14:
-			g.Emit("auth key=%s msg=%s", hx.Hex(r.Bytes(32)), hx.Hex(msg))
+			line = fmt.Sprintf("auth key=%s msg=%s", hx.Hex(r.Bytes(32)), hx.Hex(msg))
 			g.Stat("auth.sum")
 		case 15:
 			var key [32]byte
@@ -217,27 +218,54 @@ func gen(g *hx.Gen) {
 			default:
 				g.Stat("auth.verify-valid")
 			}
-			g.Emit("authv key=%s msg=%s digest=%s", hx.Hex(key[:]), hx.Hex(msg), hx.Hex(d))
+			line = fmt.Sprintf("authv key=%s msg=%s digest=%s", hx.Hex(key[:]), hx.Hex(msg), hx.Hex(d))
 		}
 	}
+	return line
 }
 
-func withCap(dst []byte, spare int) []byte {
-	b := make([]byte, len(dst), len(dst)+spare)
-	copy(b, dst)
-	return b
+// kinds by family: sessions stay inside one family so that consecutive calls hit the same functions with the
+// same (reused) key / nonce arrays and buffers but different contents
+var families = [][]int{
+	{0, 1, 2, 3, 4}, // secretbox seal/open
+	{6, 7, 8, 9, 5}, // box seal/open/precompute
+	{10, 11, 6, 9},  // sealed boxes mixed with plain box calls
+	{12, 13},        // sign
+	{14, 15},        // auth
 }
 
-func a32(b []byte) *[32]byte {
-	var a [32]byte
-	copy(a[:], b)
-	return &a
-}
-
-func a24(b []byte) *[24]byte {
-	var a [24]byte
-	copy(a[:], b)
-	return &a
+func gen(g *hx.Gen) {
+	r := g.R
+	n := g.Count(2400, 40000)
+	for i := 0; i < n; i++ {
+		g.Emit("%s", genLine(g, r.Intn(16)))
+	}
+	// sessions: 2..5 consecutive calls sharing arrays and buffers; some calls repeat the previous contents,
+	// some run on fresh arrays (fresh=1)
+	ns := g.Count(300, 5000)
+	for i := 0; i < ns; i++ {
+		fam := hx.Pick(r, families)
+		k := r.Range(2, 5)
+		var lines []string
+		for j := 0; j < k; j++ {
+			var l string
+			if j > 0 && r.Chance(1, 5) {
+				l = lines[r.Intn(len(lines))] // same contents again (on the reused or on fresh arrays)
+				l = strings.TrimSuffix(l, " fresh=1")
+				g.Stat("session.repeat-contents")
+			} else {
+				l = genLine(g, hx.Pick(r, fam))
+			}
+			if r.Chance(1, 6) {
+				l += " fresh=1"
+				g.Stat("session.fresh-arrays")
+			}
+			lines = append(lines, l)
+		}
+		g.Emit("%s", sessLine(lines))
+		g.StatN("session.calls", k)
+		g.Stat("session")
+	}
 }
 
 func openRes(ret []byte, ok bool) string {
@@ -252,60 +280,81 @@ func openRes(ret []byte, ok bool) string {
 
 func exec(line string) string {
 	o := hx.Parse(line)
-	r := execOp(o)
+	if o.Cmd == "sess" {
+		ar := newArena()
+		var outs []string
+		for _, sub := range strings.Split(o.Str("ops"), "|") {
+			so := hx.Parse(strings.ReplaceAll(sub, ";", " "))
+			a := ar
+			if so.Str("fresh") == "1" {
+				a = newArena()
+			}
+			outs = append(outs, hx.Catch(func() string { return execKat(so, a) }))
+		}
+		return strings.Join(outs, " ## ")
+	}
+	return execKat(o, newArena())
+}
+
+func execKat(o hx.Op, a *arena) string {
+	a.begin()
+	r := execOp(o, a)
 	if o.Has("expect") && strings.ReplaceAll(r, " ", "_") != o.Str("expect") {
 		return "kat-mismatch " + r
 	}
-	return r
+	return r + a.mutated()
 }
 
-func execOp(o hx.Op) string {
+func execOp(o hx.Op, a *arena) string {
 	var out []byte
 	if o.Has("out") {
-		out = withCap(o.Hex("out"), o.Int("cap"))
+		out = a.Out("out", o.Hex("out"), o.Int("cap"), 0xaa)
 	}
+	in := func(k string) []byte { return a.In(k, o.Hex(k)) }
+	k32 := func(k string) *[32]byte { return a.K32(k, o.Hex(k)) }
 	switch o.Cmd {
 	case "sbseal":
-		return hx.Hex(secretbox.Seal(out, o.Hex("msg"), a24(o.Hex("nonce")), a32(o.Hex("key"))))
+		return hx.Hex(secretbox.Seal(out, in("msg"), a.K24("nonce", o.Hex("nonce")), k32("key")))
 	case "sbopen":
-		return openRes(secretbox.Open(out, o.Hex("box"), a24(o.Hex("nonce")), a32(o.Hex("key"))))
+		return openRes(secretbox.Open(out, in("box"), a.K24("nonce", o.Hex("nonce")), k32("key")))
 	case "precomp":
-		var s1, s2 [32]byte
-		box.Precompute(&s1, a32(o.Hex("bpub")), a32(o.Hex("apriv")))
-		box.Precompute(&s2, a32(o.Hex("apub")), a32(o.Hex("bpriv")))
+		s1, s2 := a.K32("shared1", nil), a.K32("shared2", nil)
+		a.tr = a.tr[:len(a.tr)-2] // outputs, not inputs
+		box.Precompute(s1, k32("bpub"), k32("apriv"))
+		box.Precompute(s2, k32("apub"), k32("bpriv"))
 		return hx.Hex(s1[:]) + " " + hx.Hex(s2[:])
 	case "bxseal":
 		if o.Int("pre") == 1 {
-			var s [32]byte
-			box.Precompute(&s, a32(o.Hex("pub")), a32(o.Hex("priv")))
-			return hx.Hex(box.SealAfterPrecomputation(out, o.Hex("msg"), a24(o.Hex("nonce")), &s))
+			s := a.K32("shared", nil)
+			a.tr = a.tr[:len(a.tr)-1]
+			box.Precompute(s, k32("pub"), k32("priv"))
+			return hx.Hex(box.SealAfterPrecomputation(out, in("msg"), a.K24("nonce", o.Hex("nonce")), s))
 		}
-		return hx.Hex(box.Seal(out, o.Hex("msg"), a24(o.Hex("nonce")), a32(o.Hex("pub")), a32(o.Hex("priv"))))
+		return hx.Hex(box.Seal(out, in("msg"), a.K24("nonce", o.Hex("nonce")), k32("pub"), k32("priv")))
 	case "bxopen":
 		if o.Int("pre") == 1 {
-			var s [32]byte
-			box.Precompute(&s, a32(o.Hex("pub")), a32(o.Hex("priv")))
-			return openRes(box.OpenAfterPrecomputation(out, o.Hex("box"), a24(o.Hex("nonce")), &s))
+			s := a.K32("shared", nil)
+			a.tr = a.tr[:len(a.tr)-1]
+			box.Precompute(s, k32("pub"), k32("priv"))
+			return openRes(box.OpenAfterPrecomputation(out, in("box"), a.K24("nonce", o.Hex("nonce")), s))
 		}
-		return openRes(box.Open(out, o.Hex("box"), a24(o.Hex("nonce")), a32(o.Hex("pub")), a32(o.Hex("priv"))))
+		return openRes(box.Open(out, in("box"), a.K24("nonce", o.Hex("nonce")), k32("pub"), k32("priv")))
 	case "anseal":
-		ret, err := box.SealAnonymous(out, o.Hex("msg"), a32(o.Hex("recipient")), bytes.NewReader(o.Hex("esk")))
+		ret, err := box.SealAnonymous(out, in("msg"), k32("recipient"), bytes.NewReader(o.Hex("esk")))
 		if err != nil {
 			return "err"
 		}
 		return hx.Hex(ret)
 	case "anopen":
-		return openRes(box.OpenAnonymous(out, o.Hex("box"), a32(o.Hex("pub")), a32(o.Hex("priv"))))
+		return openRes(box.OpenAnonymous(out, in("box"), k32("pub"), k32("priv")))
 	case "sign":
-		var priv [64]byte
-		copy(priv[:], o.Hex("priv"))
-		return hx.Hex(sign.Sign(out, o.Hex("msg"), &priv))
+		return hx.Hex(sign.Sign(out, in("msg"), a.K64("priv", o.Hex("priv"))))
 	case "sopen":
-		return openRes(sign.Open(out, o.Hex("signed"), a32(o.Hex("pub"))))
+		return openRes(sign.Open(out, in("signed"), k32("pub")))
 	case "auth":
-		return hx.Hex(auth.Sum(o.Hex("msg"), a32(o.Hex("key")))[:])
+		return hx.Hex(auth.Sum(in("msg"), k32("key"))[:])
 	case "authv":
-		if auth.Verify(o.Hex("digest"), o.Hex("msg"), a32(o.Hex("key"))) {
+		if auth.Verify(in("digest"), in("msg"), k32("key")) {
 			return "v1"
 		}
 		return "v0"
